@@ -234,6 +234,25 @@ def run(ctx: Ctx) -> None:
                 hit = n
                 break
         ok = hit is not None and must_raise(hit.body) and all(raised_class(r)[0] == "GuppyError" for b in hit.body for r in ast.walk(b) if isinstance(r, ast.Raise))
+        if ok:
+            # the test must actually be true for a signature that has such a parameter: interpret the function up to
+            # this `if` on a signature whose only unusual part is this field
+            from ..absint.minieval import Unsupported as _Uns
+            from ..absint.pyeval import PyEval as _PE, Raised as _Rai, Tok as _Tok
+            fields = {"posonlyargs": [], "kwonlyargs": [], "vararg": None, "kwarg": None, "defaults": [], "kw_defaults": [], "args": []}
+            fields[fld] = _Tok("param") if fields[fld] is None else [_Tok("param")]
+            top = [s_ for s_ in cs.node.body if not (isinstance(s_, ast.Expr) and isinstance(s_.value, ast.Constant))]
+            upto = next((i for i, s_ in enumerate(top) if any(x is hit for x in ast.walk(s_))), None)
+            try:
+                if upto is None:
+                    raise _Uns("the rejection is not a top-level statement")
+                r = _PE(idx, cs.module.name).run(top[: upto + 1], {cs.node.args.args[0].arg: _Tok("func_def", args=_Tok("arguments", **fields), returns=None, name="f", body=[])})
+                ok = r[0] == "raise" and r[1] == "GuppyError"
+            except _Rai:
+                ok = False
+            except _Uns as e:
+                ctx.undecided("R-C32.3", f"{cs.qualname}#rejects-{fld}", cs.where, str(e))
+                continue
         ctx.check(ok, "R-C32.3", f"{cs.qualname}#rejects-{fld}", f"{cs.module.rel}:{hit.lineno}" if hit else cs.where,
                   {"test": ast.unparse(hit.test) if hit else None},
                   f"function parameters of kind `{fld}` are accepted and ignored")
